@@ -20,6 +20,7 @@ try:
     rc, out = sh(f"git apply {os.path.abspath(src)}/patch.diff", cwd=wt)
     if rc != 0:
         res["apply_error"] = out[-400:]
+        print(name, "PATCH DOES NOT APPLY TO HEAD:", out[-300:])
         raise SystemExit
     res["applied"] = True
     # unchanged build (shared) and changed build
